@@ -454,11 +454,11 @@ func init() {
 				copyTimeRun(c, "call", "return")
 				for i, pc := range c08Shadow() {
 					pc, i := pc, i
-					c.Do(func() any { return c08Spec{Form: "shadow", Shape: i} }, func() *fw.Violation { v, _, _ := pc.check(c); return v })
+					c.Do(func() any { return c08Spec{Form: "shadow", Shape: i} }, func() *fw.Violation { return pc.mustCheck(c, "shadowing") })
 				}
 				for i, pc := range c08MatchLocals() {
 					pc, i := pc, i
-					c.Do(func() any { return c08Spec{Form: "matchlocals", Shape: i} }, func() *fw.Violation { v, _, _ := pc.check(c); return v })
+					c.Do(func() any { return c08Spec{Form: "matchlocals", Shape: i} }, func() *fw.Violation { return pc.mustCheck(c, "names created in case bodies") })
 				}
 			case u < 3*nb:
 				arity, first := u/nb, u%nb
